@@ -83,8 +83,22 @@ def burst_cases(ctx, n):
     return out
 
 
+def rerun_limit_cases(ctx, n):
+    """Second submission with rerun=True over a warm cache, with a limit: the re-executions count against
+    max_concurrent like any other job (pure bodies: tie with the model's warm start)."""
+    rng = ctx.rng
+    out = []
+    for _ in range(n):
+        nodes = fakes.gen_nodes(rng, nmin=2, nmax=5, maxjobs=8, zero_p=0.0)
+        nj = sum(fakes.njobs(nd) for nd in nodes)
+        out.append(dict(nodes=nodes, k=rng.randint(1, max(1, nj - 1)), fail=[],
+                        oracle=fakes.gen_oracle(rng, nj, multi=0.3, visp=rng.choice([0.5, 1.0])), mode="rerun"))
+    return out
+
+
 def run(ctx):
-    extra = cf_cases(ctx, ctx.budget(2, 10)) + burst_cases(ctx, ctx.budget(14, 150))
+    extra = (cf_cases(ctx, ctx.budget(2, 10)) + burst_cases(ctx, ctx.budget(14, 150))
+             + rerun_limit_cases(ctx, ctx.budget(8, 100)))
     out, cases, obs, usable, bad = fakes.drive(
         ctx, "c16", SPEC, ctx.budget(22, 300), ctx.budget(4, 40), ctx.budget(8, 300), RULE,
         "more than max_concurrent jobs launched and unfinished at some instant", force_k=True, extra_cases=extra)
